@@ -184,10 +184,10 @@ func vc12Flags(flags map[string]bool) string {
 	return fmt.Sprintf("(check_bt (mk_bt_guards %s %s %s))", g("g_bt_capacity"), g("g_bt_readfull"), g("g_bt_get"))
 }
 
-func TestVerif_C12(t *testing.T) {
-	c12h.Run(t, &c12h.Part{
-		Name: "blocktime",
-		Rule: "blocktimeindex.FromBytes / FromFile / Index.Get on mutated valid files: no panic, allocation <= 16*len+256KiB, no hang; outcome class and decoded fields = Coq model",
+func vc12Part() *c12h.Part {
+	return &c12h.Part{
+		Name:  "blocktime",
+		Rule:  "blocktimeindex.FromBytes / FromFile / Index.Get on mutated valid files: no panic, allocation <= 16*len+256KiB, no hang; outcome class and decoded fields = Coq model",
 		Seeds: vc12Seeds, Gen: vc12Gen, Exec: vc12Exec, Budget: vc12Budget, Witnesses: vc12Witnesses,
 		FlagOf: func(name string, r *c12h.Result, def bool) bool {
 			if name == "g_bt_readfull" { // a file whose last value is cut: io.ReadFull reports it, a bare Read pads it with zeros
@@ -196,5 +196,22 @@ func TestVerif_C12(t *testing.T) {
 			return def
 		},
 		CoqImports: []string{"YF.C12_Check"}, CoqType: "bt_case", CoqChecker: vc12Flags, CoqCase: vc12CoqCase, MaxCoq: 500,
-	})
+		Fuzz: vc12Fuzz,
+	}
+}
+
+func TestVerif_C12(t *testing.T) { c12h.Run(t, vc12Part()) }
+
+// native fuzz target (thorough tier; run by c12h.Run from an instrumented copy of the test binary)
+func FuzzVerifC12(f *testing.F) { c12h.FuzzBody(f, vc12Part()) }
+
+func vc12Fuzz(data []byte, sel uint64, seeds []c12h.Seed) *c12h.Input {
+	if sel%2 == 0 {
+		return &c12h.Input{Entry: "frombytes", Label: "fuzz", Data: data}
+	}
+	slot := sel / 2
+	if len(data) >= 22 && sel%3 == 0 { // a slot near the start the file declares
+		slot = c12h.GetLE(data, 14, 8) + (sel/6)%64
+	}
+	return &c12h.Input{Entry: "get", Label: "fuzz", Data: data, Aux: []uint64{slot}}
 }
